@@ -97,6 +97,13 @@ def prop_decoder(ctx, case):
     cname, params, rest = sc
     # (2) literal membership
     check_literals(name, a, e, params, txt)
+    # (4b) the matching START is the most recent one: an earlier unterminated START of the same call changes nothing
+    other = distinct_words(name, seed + 777)
+    if other is not None:
+        txt4 = guard(render, name, a, e, lookups, tid=0x44, stale_start=other[0])
+        sc4 = TP.split_call(txt4)
+        if sc4 is None or (sc4[0], sc4[1]) != (cname, params):
+            raise Violation(f'stale-start-used:{name}', f'{name}: with an earlier unterminated START {other[0]} the call renders {txt4!r} instead of {txt!r}')
     # (4) purity: END, tid, timestamps, unrelated nested records
     e2 = list(S.expand_words(seed + 99, 3))
     de = domains.project(name, 2, e2)
@@ -106,13 +113,6 @@ def prop_decoder(ctx, case):
     sc2 = TP.split_call(txt2)
     if sc2 is None or (sc2[0], sc2[1]) != (cname, params):
         raise Violation(f'call-part-impure:{name}', f'{name}: call part changed with END/tid/timestamps/nested records: {txt!r} vs {txt2!r}')
-    # (4b) the matching START is the most recent one: an earlier unterminated START of the same call changes nothing
-    other = distinct_words(name, seed + 777)
-    if other is not None:
-        txt4 = guard(render, name, a, e, lookups, stale_start=other[0])
-        sc4 = TP.split_call(txt4)
-        if sc4 is None or (sc4[0], sc4[1]) != (cname, params):
-            raise Violation(f'stale-start-used:{name}', f'{name}: with an earlier unterminated START {other[0]} the call renders {txt4!r} instead of {txt!r}')
     # (1) position sensitivity
     for k in range(4):
         b = list(a)
@@ -146,7 +146,16 @@ def prop_decoder(ctx, case):
                 if re.match(r'^[A-Za-z_][A-Za-z0-9_]*$', p) and p in seen and (seen[p] & 0xffffffff) != (v & 0xffffffff):
                     raise Violation('enum-not-injective', f'{name}: parameter {k} shows {p} for both {seen[p]} and {v}')
                 seen[p] = v
-    ctx.note([name, a], nontrivial=all(a) and len(set(a)) == 4, classes=['bsd' if name.startswith('BSC_') else 'mach', f'lookups:{nlook}'])
+    cls = ['bsd' if name.startswith('BSC_') else 'mach', f'lookups:{nlook}']
+    if case.get('long_window'):
+        # a call interrupted hundreds of times (or a START left open for a long while) still renders from its own START
+        many = [SC.junk(0x33, seed + j, j % 7) for j in range(case['long_window'])]
+        txt5 = guard(render, name, a, e, lookups, nested=many)
+        sc5 = TP.split_call(txt5)
+        if sc5 is None or (sc5[0], sc5[1]) != (cname, params):
+            raise Violation(f'long-window:{name}', f'{name}: with {len(many)} nested records the call renders {txt5!r} instead of {txt!r}')
+        cls.append('long-window')
+    ctx.note([name, a], nontrivial=all(a) and len(set(a)) == 4, classes=cls)
 
 
 PROPS = {'decoder': prop_decoder}
@@ -160,7 +169,8 @@ def names():
 
 def run(ctx):
     base = ctx.seed * 15485863
-    cases = [{'name': n, 'seed': base + 13 * i + 1000003 * r, 'lookups': (i + r) % 3}
+    cases = [{'name': n, 'seed': base + 13 * i + 1000003 * r, 'lookups': (i + r) % 3,
+              'long_window': [300, 1000, 260, 520][(i + r) % 4] if (i + 7 * r + ctx.seed) % 53 == 0 else 0}
              for r in range(ctx.n(20, 500)) for i, n in enumerate(names())]
     ctx.run_enum('decoder', cases, prop_decoder, exhaustive_label='every BSC_/MSC_ decoder name (tuples sampled)')
     strat = st.fixed_dictionaries({'name': st.sampled_from(names()), 'seed': st.integers(0, 2 ** 62), 'lookups': st.integers(0, 2)})
